@@ -571,7 +571,19 @@ impl Compress {
         packet: &[u8],
         offset: usize,
     ) -> CompressedNameResult {
-        Self::copy_compressed_name_with_base_offset(dict, compressed, packet, offset, 0)
+        // Offsets recorded in the dictionary must be locations in the output
+        let base_offset = compressed.len();
+        let res = Self::copy_compressed_name_with_base_offset(
+            dict,
+            compressed,
+            &packet[offset..],
+            0,
+            base_offset,
+        );
+        CompressedNameResult {
+            name_len: res.name_len,
+            final_offset: offset + res.final_offset,
+        }
     }
 }
 
